@@ -553,4 +553,63 @@ Theorem svd_distributions keep (U : nat -> nat -> K) (s r : nat -> K) (V : nat -
   bsum keep (fun k => (U a k * s k) * V k b) = bsum keep (fun k => U a k * (s k * V k b)) /\
   bsum keep (fun k => (U a k * s k) * V k b) = bsum keep (fun k => (U a k * r k) * (r k * V k b)).
 Proof. intros H a b. split; apply bsum_ext; intros k _; [ring|rewrite H; ring]. Qed.
+(* ---- the product of two operators given as tensor trains (C04: a long-range gate's MPO applied to the MPO held by the checker; any
+   MPO-times-MPO): site by site the physical legs are contracted (output digit of the right operand = input digit of the left one)
+   and the bonds are paired, (l1, l2) -> l1 * chi2 + l2.  Theorem: every entry of the product chain is the sum over the intermediate
+   digit string of the products of the entries — matrix multiplication. ---- *)
+Definition mpo_mul_site (dd : nat) (g m : site) : site :=
+  {| d := dd * dd; chiL := chiL g * chiL m; chiR := chiR g * chiR m;
+     A := fun p l r => bsum dd (fun k => A g ((p / dd) * dd + k)%nat (l / chiL m)%nat (r / chiR m)%nat
+                                        * A m (k * dd + p mod dd)%nat (l mod chiL m)%nat (r mod chiR m)%nat) |}.
+Definition pv (c2 : nat) (u v : vec) : vec := fun l => u (l / c2)%nat * v (l mod c2)%nat.
+Lemma step_mul dd g m u v p r :
+  step (pv (chiL m) u v) (mpo_mul_site dd g m) p r
+  = bsum dd (fun k => pv (chiR m) (step u g ((p / dd) * dd + k)%nat) (step v m (k * dd + p mod dd)%nat) r).
+Proof. unfold step at 1. unfold mpo_mul_site. cbn [chiL A]. rewrite bsum_split.
+  rewrite (bsum_ext (chiL g) _ (fun l1 => bsum (chiL m) (fun l2 => bsum dd (fun k =>
+     (u l1 * A g ((p / dd) * dd + k)%nat l1 (r / chiR m)%nat) * (v l2 * A m (k * dd + p mod dd)%nat l2 (r mod chiR m)%nat))))).
+  2:{ intros l1 _. apply bsum_ext; intros l2 H2. unfold pv. destruct (divmod_digits (chiL m) l1 l2 H2) as [E1 E2]. rewrite E1, E2.
+      rewrite <- bsum_mul_l. apply bsum_ext; intros k _. ring. }
+  rewrite (bsum_ext (chiL g) _ (fun l1 => bsum dd (fun k => bsum (chiL m) (fun l2 =>
+     (u l1 * A g ((p / dd) * dd + k)%nat l1 (r / chiR m)%nat) * (v l2 * A m (k * dd + p mod dd)%nat l2 (r mod chiR m)%nat)))))
+    by (intros l1 _; apply bsum_swap).
+  rewrite bsum_swap. apply bsum_ext; intros k _. unfold pv, step.
+  rewrite <- bsum_mul_r. apply bsum_ext; intros l1 _. rewrite <- bsum_mul_l. reflexivity. Qed.
+
+Fixpoint ksum (dd : nat) (sigma : list nat) (F : list nat -> K) : K :=
+  match sigma with [] => F [] | _ :: s' => bsum dd (fun k => ksum dd s' (fun ks => F (k :: ks))) end.
+Fixpoint mid_out (dd : nat) (sigma ks : list nat) : list nat :=
+  match sigma, ks with p :: s', k :: ks' => ((p / dd) * dd + k)%nat :: mid_out dd s' ks' | _, _ => [] end.
+Fixpoint mid_in (dd : nat) (sigma ks : list nat) : list nat :=
+  match sigma, ks with p :: s', k :: ks' => (k * dd + p mod dd)%nat :: mid_in dd s' ks' | _, _ => [] end.
+Fixpoint chained_from (c : nat) (ms : list site) : Prop := match ms with [] => True | m :: r => chiL m = c /\ chained_from (chiR m) r end.
+Definition last_chi (c : nat) (ms : list site) : nat := fold_left (fun _ m => chiR m) ms c.
+Fixpoint mul_chain (dd : nat) (gs ms : list site) : list site :=
+  match gs, ms with g :: gs', m :: ms' => mpo_mul_site dd g m :: mul_chain dd gs' ms' | _, _ => [] end.
+Lemma ksum_ext dd sigma : forall F G, (forall ks, F ks = G ks) -> ksum dd sigma F = ksum dd sigma G.
+Proof. induction sigma as [|p s IH]; intros F G H; cbn [ksum]; [apply H|]. apply bsum_ext; intros k _. apply IH. intro ks. apply H. Qed.
+
+Theorem mpo_product_run dd gs : forall ms sigma c2 u v r, length ms = length gs -> length sigma = length gs -> chained_from c2 ms ->
+  run (pv c2 u v) (mul_chain dd gs ms) sigma r
+  = ksum dd sigma (fun ks => pv (last_chi c2 ms) (run u gs (mid_out dd sigma ks)) (run v ms (mid_in dd sigma ks)) r).
+Proof. induction gs as [|g gs IH]; intros ms sigma c2 u v r Hm Hs Hc.
+  - destruct ms; [|discriminate]. destruct sigma; [|discriminate]. reflexivity.
+  - destruct ms as [|m ms]; [discriminate|]. destruct sigma as [|p sigma]; [discriminate|].
+    cbn [mul_chain run ksum]. destruct Hc as [Hc1 Hc2]. subst c2.
+    rewrite (run_ext (mul_chain dd gs ms) _ (fun l => bsum dd (fun k => k1 * pv (chiR m) (step u g ((p / dd) * dd + k)%nat) (step v m (k * dd + p mod dd)%nat) l)) sigma).
+    2:{ intro l. rewrite step_mul. apply bsum_ext; intros k _. ring. }
+    rewrite run_linear. apply bsum_ext; intros k _.
+    rewrite IH by (cbn [length] in *; try lia; exact Hc2).
+    assert (E : k1 * ksum dd sigma (fun ks => pv (last_chi (chiR m) ms) (run (step u g ((p / dd) * dd + k)%nat) gs (mid_out dd sigma ks)) (run (step v m (k * dd + p mod dd)%nat) ms (mid_in dd sigma ks)) r)
+                = ksum dd sigma (fun ks => pv (last_chi (chiR m) ms) (run (step u g ((p / dd) * dd + k)%nat) gs (mid_out dd sigma ks)) (run (step v m (k * dd + p mod dd)%nat) ms (mid_in dd sigma ks)) r)) by ring.
+    rewrite E. apply ksum_ext. intro ks. reflexivity. Qed.
+
+(* closed chains (boundary bonds of dimension 1): the entry of the product is the sum over intermediate strings of the products of entries *)
+Theorem mpo_product_is_operator_product dd gs ms sigma : length ms = length gs -> length sigma = length gs ->
+  chained_from 1 ms -> last_chi 1 ms = 1%nat ->
+  amp (mul_chain dd gs ms) sigma = ksum dd sigma (fun ks => amp gs (mid_out dd sigma ks) * amp ms (mid_in dd sigma ks)).
+Proof. intros Hm Hs Hc Hl. unfold amp.
+  rewrite (run_ext (mul_chain dd gs ms) e0 (pv 1 e0 e0) sigma).
+  - rewrite mpo_product_run by assumption. rewrite Hl. apply ksum_ext. intro ks. unfold pv. rewrite Nat.div_1_r. reflexivity.
+  - intro l. unfold pv. rewrite Nat.div_1_r, Nat.mod_1_r. unfold e0 at 3. ring. Qed.
 End TT.
